@@ -5,7 +5,7 @@ package ir
 
 import (
 	"fmt"
-	"strings"
+	"reflect"
 )
 
 // Pkg is a package of a case. Rel "" is the root (injector) package.
@@ -250,6 +250,6 @@ func (t *Type) FieldByName(n string) *Field {
 }
 
 func prevented(tag string) bool {
-	// documented: `wire:"-"`
-	return strings.Contains(tag, `wire:"-"`)
+	// documented: a field tagged `wire:"-"` (struct tag syntax: key wire, value -)
+	return reflect.StructTag(tag).Get("wire") == "-"
 }
